@@ -30,6 +30,17 @@ pub fn generate(
         }
 
         remove_param_bounds(&mut generics);
+        // NOTE: Params that are relaxed by the impls stay relaxed in the helper trait
+        generics.type_params_mut().for_each(|param| {
+            let is_unsized = impl_group
+                .assoc_bounds
+                .unsized_params
+                .contains(&Bounded::from(&param.ident));
+
+            if is_unsized {
+                param.bounds.push(syn::parse_quote!(?Sized));
+            }
+        });
         // NOTE: Params are declared in the order in which they are given as arguments
         generics.params = {
             let (mut lifetimes, mut params): (Vec<_>, Vec<_>) = generics
